@@ -8,7 +8,7 @@ def run(chk):
     quick = chk.tier == "quick"
     chk.rule = ("two whole networks on the fabric, 1-128 concurrent RPCs in both directions (bodies 0 B - 4 MiB, optional large headers, responses of another size, handler "
                 "sleeps permuting completion order) under seeded delay, jitter (reordering), duplication and loss; every result, both servers' request logs and the "
-                "'from'/'seen' identities are checked; model: Rpc.v schedules run by the extracted model on the same request set; distinct = scenario; non-trivial = all")
+                "'from'/'seen' identities are checked; in a third of the runs the ends have (possibly different) frame limits and some responses exceed them; (T) except under datagram loss and with equal limits, the per-RPC events both ends record (H4c trace points) are replayed on Rpc.v by RpcTrace.erun with the recorded handler table: acceptance, handler invocations per stream and every caller's response must agree; distinct = scenario; non-trivial = all")
     if not chk.prepare():
         return
     simnet.c02(chk)
